@@ -18,7 +18,7 @@ import tempfile
 from concurrent.futures import ThreadPoolExecutor
 
 VERIF = os.path.dirname(os.path.dirname(os.path.abspath(__file__)))
-PROPS = ["C%02d" % i for i in range(1, 21)]
+PROPS = os.environ.get("OVNI_PAR_PROPS", "").split() or ["C%02d" % i for i in range(1, 21)]
 
 
 def sh(cmd, cwd=None):
